@@ -58,7 +58,7 @@ fn asker(v6: bool) -> SocketAddr {
 }
 
 const INSTANTS: [u64; 3] = [4_000, 950_000, 1_500_000];
-const INSTANTS_ALL_SILENT: [u64; 3] = [4_000, 903_500, 905_000];
+const INSTANTS_ALL_SILENT: [u64; 3] = [901_800, 902_400, 903_000];
 
 fn targets() -> Vec<[u8; 20]> {
     let own = InfoHash::from(n_id());
@@ -105,6 +105,7 @@ pub fn build(cfg: &Cfg) -> (Scenario, Vec<Box<dyn Peer>>) {
     }
     let instants = if cfg.all_silent { INSTANTS_ALL_SILENT } else { INSTANTS };
     for (k, t) in instants.iter().enumerate() {
+        sc.actions.push((When::At(*t), Action::LoadContacts { node: 0, tag: format!("contacts{k}") }));
         sc.actions.push((When::At(*t), Action::ProbeTable { node: 0, from: prober(), tag: format!("dump{k}") }));
         for (j, target) in tg.iter().enumerate() {
             for (w, want) in [None, Some(vec!["n4"]), Some(vec!["n6"]), Some(vec!["n4", "n6"])].iter().enumerate() {
@@ -140,6 +141,17 @@ pub fn judge(cfg: &Cfg, res: &RunResult) -> (Vec<(String, String)>, u64, Vec<usi
             }
         }
         sizes.push(table.len());
+        // independent view of the same instant: the contacts API
+        for e in res.api.iter().filter(|e| e.tag == format!("contacts{k}")) {
+            if let sim::ApiKind::Contacts { good, questionable } = &e.kind {
+                let listed: BTreeSet<SocketAddr> = good.iter().chain(questionable.iter()).copied().collect();
+                let dumped: BTreeSet<SocketAddr> = table.iter().map(|(_, a)| *a).collect();
+                if listed != dumped {
+                    let missing: Vec<_> = listed.difference(&dumped).take(3).collect();
+                    v.push(("replies-do-not-offer-live-contacts".to_string(), format!("instant #{k}: load_contacts lists {} good + {} questionable contacts, the 161 find_node probes of the same millisecond offer {} nodes; never offered: {:?}", good.len(), questionable.len(), dumped.len(), missing)));
+                }
+            }
+        }
         let qprefix = format!("q{k}-");
         for d in res.wire.iter().filter(|d| d.src == n && d.dst == asker(cfg.v6)) {
             let p = krpc::parse(&d.bytes);
